@@ -23,7 +23,12 @@ type c15Case struct {
 	Map    json.RawMessage `json:"map,omitempty"`
 	MapStr string          `json:"map_dump,omitempty"`
 	Args   []string        `json:"args,omitempty"`
+	Cfg    *Cfg            `json:"options,omitempty"` // decoder options in force (nil = defaults)
 }
+
+// c15Cfg: the decoder options in force for the current part (a) case (nil = defaults). The acceptance
+// oracle does not depend on it: no option is documented to change which inputs a decoder accepts.
+var c15Cfg *Cfg
 
 func init() {
 	register(&Property{ID: "C15", Run: c15Run, Replay: func(c *Ctx, cas json.RawMessage, ch []int) {
@@ -31,7 +36,12 @@ func init() {
 		json.Unmarshal(cas, &k)
 		resetOptions()
 		if k.Kind == "bytes" {
+			if k.Cfg != nil {
+				applyCfg(*k.Cfg)
+				c15Cfg = k.Cfg
+			}
 			c15Bytes(c, k.Input, k.API)
+			c15Cfg = nil
 		} else if k.Kind == "stall" {
 			n := 0
 			fmt.Sscan(k.Args[0], &n)
@@ -234,7 +244,7 @@ func c15JSONReaderExpect(in []byte) (string, map[string]interface{}) {
 }
 
 func c15BytesOne(c *Ctx, in []byte, api string) {
-	cas := func() interface{} { return c15Case{Kind: "bytes", Input: in, Text: string(in), API: api} }
+	cas := func() interface{} { return c15Case{Kind: "bytes", Input: in, Text: string(in), API: api, Cfg: c15Cfg} }
 	c.S.Transitions++
 	c.S.Validated++
 	var m map[string]interface{}
@@ -499,7 +509,7 @@ func mutate1(seed []byte, f func(b []byte)) {
 
 func c15Run(c *Ctx) {
 	mustBeDefault(c)
-	c.S.Rule = "part (a): seed documents (11 XML incl. mixed content with number-like text, prolog/comments/PIs/CDATA/namespaces/BOM/two roots/DOCTYPE, 8 JSON incl. braces and quotes in strings, a trailing escaped backslash and numbers outside the float64 range, 1 gob) x every truncation, single-byte deletion, substitution and insertion from {< > / & \" = { } [ ] \\ a space 0xFF VT FF} at every offset (deviation bound 1; pairs of deviations on the seeds of up to 40 bytes in thorough) x every decoder form (byte, reader - as pointer, function-typed and by-value struct readers, each non-pointer kind twice in a row -, ByteReader, raw, bulk handlers, formatted, BeautifyXml, gob, x2j-wrapper Unmarshal/DocToMap), plus readers that stall with (0,nil) for ever after every prefix length; oracle: no panic, termination (reader horizon), fails iff the standard tokenizer rejects the first document (Token for the Map decoders, RawToken + name matching for the sequence decoders, encoding/json for JSON), no partial Map with an error, documented no-root result, and the decoded Map encodes without panic. part (b): Maps with <= 4 nodes over keys {a, k, \"\"} and Maps with <= 3 nodes over keys that look like path syntax {a, *, a[0], a.k} x malformed and well-formed path / key / sub-key / new-value / key-pair strings x every query and update method and the x2j-wrapper walkers; oracle: no panic, and termination (a budget of 400000 function entries / loop iterations per call, enforced by the instrumentation, turns unbounded recursion into a reported violation). non-trivial = distinct (api, outcome) pairs are counted in distinct_outcomes; every case counts."
+	c.S.Rule = "part (a): seed documents (11 XML incl. mixed content with number-like text, prolog/comments/PIs/CDATA/namespaces/BOM/two roots/DOCTYPE, 8 JSON incl. braces and quotes in strings, a trailing escaped backslash and numbers outside the float64 range, 1 gob) x every truncation, single-byte deletion, substitution and insertion from {< > / & \" = { } [ ] \\ a space 0xFF VT FF} at every offset (deviation bound 1; pairs of deviations on the seeds of up to 40 bytes in thorough) x every decoder form (byte, reader - as pointer, function-typed and by-value struct readers, each non-pointer kind twice in a row -, ByteReader, raw, bulk handlers, formatted, BeautifyXml, gob, x2j-wrapper Unmarshal/DocToMap), the XML deviations of bound 1 again under 4 non-default decoder option settings (simple-values-as-map; keep-spaces; both with tag sequence numbers; empty attribute prefix + '_' key prefix + lower/snake-case keys + decoder-side escaping + int and NaN/Inf casting), plus readers that stall with (0,nil) for ever after every prefix length; oracle: no panic, termination (reader horizon), fails iff the standard tokenizer rejects the first document (Token for the Map decoders, RawToken + name matching for the sequence decoders, encoding/json for JSON), no partial Map with an error, documented no-root result, and the decoded Map encodes without panic. part (b): Maps with <= 4 nodes over keys {a, k, \"\"} and Maps with <= 3 nodes over keys that look like path syntax {a, *, a[0], a.k} x malformed and well-formed path / key / sub-key / new-value / key-pair strings x every query and update method and the x2j-wrapper walkers; oracle: no panic, and termination (a budget of 400000 function entries / loop iterations per call, enforced by the instrumentation, turns unbounded recursion into a reported violation). non-trivial = distinct (api, outcome) pairs are counted in distinct_outcomes; every case counts."
 	c.S.Assumptions = []string{"reference acceptance = encoding/xml Token()/RawToken()+nesting, encoding/json Decoder"}
 	xmls, jsons, gob := c15Seeds()
 	xmlAPIs := []string{"NewMapXml", "NewMapXml(cast)", "NewMapXmlReader", "NewMapXmlReader(ByteReader)", "NewMapXmlReaderRaw", "NewMapXmlSeq", "NewMapXmlSeq(cast)",
@@ -539,6 +549,24 @@ func c15Run(c *Ctx) {
 	for _, s := range xmls {
 		runBytes(s, xmlAPIs, c.Thorough)
 		runBytes(s, jsonAPIs[:1], false) // wrong-format input
+	}
+	// the same deviations under non-default decoder options: totality and the acceptance rule are stated for
+	// every decoder, and no option is documented to change what a decoder accepts
+	optCfgs := []Cfg{
+		{AttrPrefix: "-", KeyPrefix: "#", SimpleMap: true},
+		{AttrPrefix: "-", KeyPrefix: "#", KeepSpaces: true},
+		{AttrPrefix: "-", KeyPrefix: "#", SimpleMap: true, KeepSpaces: true, SeqNum: true},
+		{AttrPrefix: "", KeyPrefix: "_", Lower: true, Snake: true, EscDec: true, CastInt: true, NanInf: true},
+	}
+	optAPIs := []string{"NewMapXml", "NewMapXml(cast)", "NewMapXmlReader", "NewMapXmlReaderRaw", "NewMapXmlSeq", "NewMapXmlSeq(cast)", "NewMapXmlSeqReader", "HandleXmlReader", "x2j-wrapper.DocToMap"}
+	for i := range optCfgs {
+		applyCfg(optCfgs[i])
+		c15Cfg = &optCfgs[i]
+		for _, s := range xmls {
+			runBytes(s, optAPIs, false)
+		}
+		c15Cfg = nil
+		resetOptions()
 	}
 	for _, s := range jsons {
 		runBytes(s, jsonAPIs, c.Thorough)
